@@ -348,9 +348,70 @@ def replay(path):
     return 0
 
 
+def check_all(tier, seed, scale=1.0):
+    """development mode (`./check ALL [tier]`): one shared set of histories, every property's decision
+    evaluated on it; prints `ALL-VIOLATION property=<id> kind=<monitor|chunks|correspondence> <what>`
+    lines and writes no evidence.  Used by the mutation sweep (tools/mutate.py)."""
+    t0 = time.time()
+    with leanaudit.BuildLock():
+        rc, hlog = leanaudit.build_harness()
+    if rc != 0:
+        print("ALL-BUILD-FAILED")
+        print(hlog[-1500:])
+        return 3
+    counts = QUICK if tier == "quick" else THOROUGH
+    pairs = {}
+    for pid, cfg in props.PROPS.items():
+        for (prof, variants) in cfg["profiles"]:
+            for v in variants:
+                pairs.setdefault((prof, v), None)
+    jobs = []
+    n = 0
+    for (prof, v) in sorted(pairs):
+        for i in range(max(1, int(counts[prof] * scale))):
+            opts = {}
+            if prof == "fy":
+                small = [(nn, kk) for nn in range(1, 6) for kk in range(0, nn + 2)]
+                if i < 8:
+                    nn, kk = small[(i * 3 + 1) % len(small)]
+                    opts = {"n": nn, "k": max(kk, 1)}
+                else:
+                    opts = {"big": True, "reps": 4}
+            if prof == "chunks":
+                opts = {"exhaustive_upto": 4, "random_scheds": 4}
+            jobs.append((prof, v, seed * 1000003 + n, opts))
+            n += 1
+    with multiprocessing.Pool(16) as pool:
+        results = pool.map(run_job, jobs, chunksize=1)
+    results = run_corpus(corpus_jobs()) + results
+    found = {}
+    for r in results:
+        for pid, vs in r["violations"].items():
+            for v in vs[:1]:
+                found.setdefault(pid, []).append(("monitor", v["msg"][:160], r["job"]))
+        for c in r["chunk_mismatch"]:
+            found.setdefault("C04", []).append(("chunks", f"{c['ep']} {c['schedule']}", r["job"]))
+        for d in r["disagreements"]:
+            for pid in props.PROPS:
+                if props.relevant(pid, d):
+                    found.setdefault(pid, []).append(("correspondence", f"{d.get('ep')} {d['fields']}", r["job"]))
+        if r["error"]:
+            found.setdefault("MACHINERY", []).append(("error", r["error"][-200:], r["job"]))
+    for pid in sorted(found):
+        kinds = sorted(set(k for (k, _, _) in found[pid]))
+        first = found[pid][0]
+        concrete = any(k in ("monitor", "chunks") for k in kinds)
+        print(f"ALL-VIOLATION property={pid} kinds={','.join(kinds)} concrete={int(concrete)} first={first[1]!r} job={first[2]}")
+    print(f"ALL {tier}: traces {len(results)}, ops {sum(r['ops'] for r in results)}, properties alarmed {len(found)}, wall {time.time() - t0:.1f}s")
+    return 1 if found else 0
+
+
 def main(argv):
     if len(argv) >= 2 and argv[0] == "replay":
         return replay(argv[1])
+    if argv and argv[0] == "ALL":
+        return check_all(argv[1] if len(argv) > 1 else "quick", int(os.environ.get("VERIF_SEED", "1")),
+                         float(os.environ.get("LP_ALL_SCALE", "1")))
     pid = argv[0]
     tier = argv[1] if len(argv) > 1 else os.environ.get("VERIF_TIER", "quick")
     seed = int(os.environ.get("VERIF_SEED", "1"))
